@@ -17,10 +17,13 @@
 (*                                                                           *)
 (* Input: the lexed translation unit, a sequence of lines, each a sequence  *)
 (* of pre-processing tokens [k, t, ws]: kind ("id" "num" "punct" "str"      *)
-(* "chr"), spelling as character codes, preceded-by-white-space flag.       *)
+(* "chr"), spelling as character codes, preceded-by-white-space flag (the   *)
+(* first token of a line is preceded by the new-line).                      *)
 (* Inside the machine a token also carries its hide set hs (set of macro    *)
-(* names) and syn (TRUE when the white-space flag was derived at the seam   *)
-(* of a substitution rather than read from the source).                     *)
+(* names) and syn (TRUE when the text of the standard does not fix whether  *)
+(* white space precedes the token: some seams of a substitution).  The      *)
+(* result of the machine is the token sequence (kinds and spellings); tags  *)
+(* record which special rules were needed (they only label findings).       *)
 (*                                                                           *)
 (* Every operator returns a status: "ok", or why the unit has no defined    *)
 (* result: "invalid" (constraint violation: a diagnostic is all that is     *)
@@ -62,8 +65,6 @@ Classify(t) == IF IsIdent(t) THEN "id" ELSE IF IsPPNum(t) THEN "num" ELSE IF t \
 
 \* ---- tokens and results ------------------------------------------------
 Tok(k, t, ws) == [k |-> k, t |-> t, hs |-> {}, ws |-> ws, syn |-> FALSE]
-FromJson(j) == Tok(j.k, j.t, j.ws)
-LineToks(line) == Mk([j \in 1..Len(line) |-> FromJson(line[j])])
 IsP(tok, s) == tok.k = "punct" /\ tok.t = s
 IsId(tok, s) == tok.k = "id" /\ tok.t = s
 Proj(ts) == Mk([j \in 1..Len(ts) |-> [k |-> ts[j].k, t |-> ts[j].t]])   \* what is compared: kinds and spellings
